@@ -2,7 +2,8 @@
 // as threads over vnet (tiny pipe, tiny block sizes in the small-scope flavour) under the controlled scheduler; every
 // method x body length x response shape, JSON / form / file / multipart bodies, every form of byte range, redirects,
 // keep-alive, two concurrent clients, raw clients and raw servers that fragment their bytes (and spell header names in
-// any case), all within a preemption bound.
+// any case), pairs of exchanges of the same kind with different content in flight at once on every body path (isolation of
+// buffers, formatted strings and framing state between handler threads / client calls), all within a preemption bound.
 #include <asl/HttpServer.h>
 #include <asl/Http.h>
 #include <asl/Socket.h>
@@ -15,6 +16,7 @@
 #include <unistd.h>
 #include "vf.h"
 #include "aslx.h"
+#include "refjson.h"
 #include "vsched.h"
 #include "vnet.h"
 using namespace asl;
@@ -32,7 +34,7 @@ static void onFatal(const char* what, const std::string& schedule) {
 }
 static std::string bodyOf(int n, int seed) { static const char al[] = { 'a', '\r', '\n', 0, 'Z', (char)0xff, ' ', '%' }; std::string s; for (int i = 0; i < n; i++) s += al[(i * 3 + seed + i / 8) % 8]; return s; }
 static std::string g_root;
-static const std::string FILE6 = "012345";
+static const std::string FILE6 = "012345", FILEG = "abcdef"; // f.txt and g.html
 #define BASEURL "http://127.0.0.1:8000"
 
 // A failure that is a classified defect of the library: reported under its own signature (so that it can be listed as a
@@ -55,10 +57,10 @@ struct Srv : public HttpServer {
 		seen.push_back(s);
 		String p = q.path();
 		if (p == "/echo") { int code = q.query("code") ? (int)q.query("code") : 200; r.setCode(code); r.setHeader("X-Method", q.method()); r.setHeader("X-Len", String(b.length())); if (q.hasHeader("X-Token")) r.setHeader("X-Token", q.header("X-Token")); r.setHeader("X-Special", "v;=, \"q\" :/?#[]@!$&'()*+%"); r.put(b); }
-		else if (p == "/len") { r.put(ByteArray((const byte*)bodyOf((int)q.query("n"), 2).data(), (int)q.query("n"))); }
+		else if (p == "/len") { r.put(ByteArray((const byte*)bodyOf((int)q.query("n"), q.query().has("s") ? (int)q.query("s") : 2).data(), (int)q.query("n"))); }
 		else if (p == "/json") { Var in = q.json(); Var out; out["got"] = in; out["n"] = in.has("n") ? in["n"] : Var(); /* no in["n"] on a value without it: that would insert into the Dic shared with out (C04 grow_while_shared) */ out["s"] = "a\"\\/\n\x01"; r.put(out); }
 		else if (p == "/stream") { // body streamed with chunked transfer encoding: n bytes written in `pieces` write() calls, then the last-chunk marker
-			int n = q.query("n"), pieces = max(1, (int)q.query("p")); std::string body = bodyOf(n, 7);
+			int n = q.query("n"), pieces = max(1, (int)q.query("p")); std::string body = bodyOf(n, q.query().has("s") ? (int)q.query("s") : 7);
 			r.setHeader("Transfer-Encoding", "chunked"); r.setHeader("X-Streamed", "yes");
 			int done = 0; for (int i = 0; i < pieces; i++) { int m = i + 1 == pieces ? n - done : n / pieces; if (m > 0) r.write(body.data() + done, m); done += m; }
 			if (n == 0) r.sendHeaders();
@@ -69,6 +71,7 @@ struct Srv : public HttpServer {
 			r.setCode(c); r.setHeader("Location", n > 1 ? String(fmt(BASEURL "/redir?n=%d&c=%d", n - 1, c).c_str()) : String(BASEURL "/echo?code=201&k=end")); r.put("moved");
 		}
 		else if (p == "/f.txt") { r.put(File((g_root + "/f.txt").c_str())); }
+		else if (p == "/g.html") { r.put(File((g_root + "/g.html").c_str())); }
 		else if (p == "/missing.txt") { r.put(File((g_root + "/missing.txt").c_str())); }
 		else { r.setCode(404); r.put("nope"); }
 	}
@@ -77,20 +80,20 @@ struct Srv : public HttpServer {
 struct Acceptor : public Thread { Srv* srv; Socket* lst; int n; volatile bool stop; Acceptor() : n(1), stop(false) {} void run() { for (int i = 0; n < 0 || i < n; i++) { if (n < 0) { while (!stop && !lst->waitInput(1.0)) {} if (stop) break; } Socket c = lst->accept(); if (c.handle() < 0) break; ((SocketServer*)srv)->serve(c); c.close(); } } };
 struct ClientT : public Thread { std::function<void()> f; void run() { f(); } };
 
-struct Job { std::string name; int bound; std::function<std::string()> body; int cap; Job() : bound(0), cap(4) {} };
+struct Job { std::string name; int bound; std::function<std::string()> body; int cap, rmax, wpre; Job() : bound(0), cap(4), rmax(0), wpre(0) {} }; // rmax: at most this many bytes per read() call (short reads), 0 = no limit; wpre: witness counter for executions with a preemption
 
 // generic runner: body returns "" when every assertion holds
 static void runJob(const Job& j, const std::string* replay) {
 	g_case = j.name; vf::cur(j.name);
 	std::string verdict;
 	auto body = [&]() {
-		vf::asan_clear(); vnet::reset(j.cap); vnet::enable(true); vnet::set_limits(0, 0);
+		vf::asan_clear(); vnet::reset(j.cap); vnet::enable(true); vnet::set_limits(j.rmax, 0);
 		verdict = j.body();
 		if (vnet::misuse()) verdict += fmt("%d socket operation(s) on a closed descriptor; ", vnet::misuse());
 		vnet::enable(false);
 		if (vf::asan_tripped()) verdict += "ASan " + vf::asan_what() + "; ";
 	};
-	auto after = [&](const vsched::Result& x) { vf::add(C_EXEC); vf::add(C_POINTS, x.points.size()); if (x.preemptions) vf::add(W_PREEMPT); if (vnet::open_fds()) verdict += fmt("%d descriptor(s) left open; ", vnet::open_fds()); std::string sig = "http_exchange"; if (verdict.compare(0, 5, "[sig=") == 0) sig = verdict.substr(5, verdict.find(']') - 5); if (!verdict.empty()) vf::violation(sig, j.name + ": " + verdict + (x.choices.size() < 500 ? "schedule " + x.trace() : fmt("schedule of %d choices", (int)x.choices.size())), j.name + "|" + x.trace()); };
+	auto after = [&](const vsched::Result& x) { vf::add(C_EXEC); vf::add(C_POINTS, x.points.size()); if (x.preemptions) { vf::add(W_PREEMPT); wit(j.wpre); } if (vnet::open_fds()) verdict += fmt("%d descriptor(s) left open; ", vnet::open_fds()); std::string sig = "http_exchange"; if (verdict.compare(0, 5, "[sig=") == 0) sig = verdict.substr(5, verdict.find(']') - 5); if (!verdict.empty()) vf::violation(sig, j.name + ": " + verdict + (x.choices.size() < 500 ? "schedule " + x.trace() : fmt("schedule of %d choices", (int)x.choices.size())), j.name + "|" + x.trace()); };
 	vsched::set_early_timeouts(false);
 	if (replay) { vsched::Result x = vsched::run_once(vsched::parse_schedule(*replay), body, 200000); after(x); }
 	else { double t0 = vf::now_s(); vsched::ExploreStats st = vsched::explore(body, after, j.bound, 0, 200000); if (!st.complete) vf::cap_hit("schedule exploration of " + j.name + " stopped early"); vf::add(C_JOBS); vf::add(C_EVAL); vf::add(C_DIST); { static int cst = vf::counter("states"); vf::add(cst, st.distinct_states); } if (getenv("VF_DEBUG")) if (FILE* df = fopen(getenv("VF_DEBUG"), "a")) fprintf(df, "JOB %s exec %llu maxpts %llu %.1fs\n", j.name.c_str(), (unsigned long long)st.executions, (unsigned long long)st.max_points, vf::now_s() - t0), fclose(df); }
@@ -454,7 +457,17 @@ static std::string parseResponses(const std::string& s, std::vector<RawResp>& ou
 		std::string st = s.substr(p, eol - p); size_t sp = st.find(' '); if (sp == std::string::npos || st.compare(0, 5, "HTTP/") != 0) return "status line '" + st.substr(0, 40) + "'; ";
 		r.proto = st.substr(0, sp); r.code = atoi(st.c_str() + sp + 1); p = eol + 2;
 		for (;;) { eol = s.find("\r\n", p); if (eol == std::string::npos) return fmt("response %d: header block not terminated; ", (int)out.size()); std::string l = s.substr(p, eol - p); p = eol + 2; if (l.empty()) break; size_t c = l.find(':'); if (c == std::string::npos) return "header line '" + l + "'; "; std::string v = l.substr(c + 1); while (!v.empty() && v[0] == ' ') v.erase(0, 1); r.h[lower(l.substr(0, c))] = v; }
-		if (r.code / 100 != 1) { if (!r.h.count("content-length")) return fmt("response %d has no Content-Length; ", (int)out.size()); size_t n = atoi(r.h["content-length"].c_str()); if (s.size() - p < n) return fmt("response %d announces %d body bytes, %d arrived; ", (int)out.size(), (int)n, (int)(s.size() - p)); r.body = s.substr(p, n); p += n; }
+		if (r.code / 100 != 1 && r.h.count("transfer-encoding") && lower(r.h["transfer-encoding"]) == "chunked") { // chunk-size line, data, CRLF ... last chunk "0", empty line
+			for (;;) {
+				eol = s.find("\r\n", p); if (eol == std::string::npos) return fmt("response %d: chunk size line not terminated; ", (int)out.size());
+				std::string hx = s.substr(p, eol - p); p = eol + 2; if (hx.empty() || hx.find_first_not_of("0123456789abcdefABCDEF") != std::string::npos) return fmt("response %d: chunk size line '%s'; ", (int)out.size(), vf::hex(hx.substr(0, 20)).c_str());
+				size_t n = strtoul(hx.c_str(), 0, 16);
+				if (n == 0) { if (s.compare(p, 2, "\r\n") != 0) return fmt("response %d: last chunk not followed by an empty line; ", (int)out.size()); p += 2; break; }
+				if (s.size() - p < n + 2 || s.compare(p + n, 2, "\r\n") != 0) return fmt("response %d: chunk announced with %d bytes is cut short or not followed by CR LF; ", (int)out.size(), (int)n);
+				r.body += s.substr(p, n); p += n + 2;
+			}
+		}
+		else if (r.code / 100 != 1) { if (!r.h.count("content-length")) return fmt("response %d has no Content-Length; ", (int)out.size()); size_t n = atoi(r.h["content-length"].c_str()); if (s.size() - p < n) return fmt("response %d announces %d body bytes, %d arrived; ", (int)out.size(), (int)n, (int)(s.size() - p)); r.body = s.substr(p, n); p += n; }
 		out.push_back(r);
 	}
 	return "";
@@ -709,6 +722,194 @@ static Job twoCliJob(int bound) {
 	};
 	return j;
 }
+// S5d: isolation of everything a message is built from, on every body path. State that two handler threads (or two client calls)
+// running at the same time would share — a block buffer or a formatted string with static storage, a member of the message kept at
+// module scope — shows only when two exchanges of the SAME kind with DIFFERENT content are in flight and one thread is preempted
+// between filling that object and handing it to the socket (a send or a read is a schedule point, reading a file block is not).
+// twosrv2.<kind>: two raw requests in the pipes <-> two threads running the per-connection server code (three threads);
+// twocli2.<kind>: two library clients <-> the main thread answering both (three threads). Kinds with a body that is RECEIVED by the
+// library run with short reads (at most 2 bytes per read() call), so that a receive block is filled by several calls.
+struct Exch {
+	std::string req; int code; std::string body; bool jsonBody;         // raw request; what must come back (jsonBody: compared as a JSON value)
+	std::map<std::string, std::string> hdr; std::vector<std::string> absent; // response headers demanded (lower-case names; a value ending in '*' is a prefix) / that must not appear
+	std::string m, path, query, reqBody; std::map<std::string, std::string> seenHdr; // what the handler must have seen
+	Exch() : code(200), jsonBody(false), m("GET") {}
+};
+static std::string chunkedOf(const std::string& b, size_t first) { // b as two chunks (first, rest) and the last-chunk marker
+	std::string r;
+	if (first > 0 && first < b.size()) r = fmt("%x\r\n", (int)first) + b.substr(0, first) + "\r\n" + fmt("%x\r\n", (int)(b.size() - first)) + b.substr(first) + "\r\n";
+	else if (!b.empty()) r = fmt("%x\r\n", (int)b.size()) + b + "\r\n";
+	return r + "0\r\n\r\n";
+}
+static bool sameJson(const std::string& a, const std::string& b) { rj::RV x, y; return rj::parse(a, x) && rj::parse(b, y) && rj::dump(x) == rj::dump(y); }
+static const char* SRV_PAIR_KINDS[] = { "file", "range", "range2", "stream", "mixchunk", "json", "chunkedreq", "echo7" };
+enum { N_SRV_PAIR_KINDS = 8 };
+static int W_PAIR_SRV[N_SRV_PAIR_KINDS], W_PAIR_SRV_PRE;
+static Exch srvExch(const std::string& kind, int i) {
+	Exch x; const std::string close = "Connection: close\r\n\r\n";
+	if (kind == "file") { // two whole files with different content and type
+		x.path = i ? "/g.html" : "/f.txt"; x.req = "GET " + x.path + " HTTP/1.1\r\n" + close; x.body = i ? FILEG : FILE6;
+		x.hdr["content-length"] = "6"; x.hdr["content-type"] = i ? "text/html" : "text/plain"; x.absent.push_back("content-range");
+	}
+	else if (kind == "range" || kind == "range2") { // range: two offsets of the same file; range2: an open-ended range of one file, a closed range of the other
+		bool two = kind == "range2"; std::string hv = two ? (i ? "bytes=1-4" : "bytes=2-") : (i ? "bytes=3-5" : "bytes=0-2");
+		x.path = two && i ? "/g.html" : "/f.txt"; x.req = "GET " + x.path + " HTTP/1.1\r\nRange: " + hv + "\r\n" + close; x.seenHdr["Range"] = hv;
+		x.code = 206; x.body = two ? (i ? "bcde" : "2345") : (i ? "345" : "012"); x.hdr["content-range"] = two ? (i ? "bytes 1-4/6" : "bytes 2-5/6") : (i ? "bytes 3-5/6" : "bytes 0-2/6");
+		x.hdr["content-length"] = fmt("%d", (int)x.body.size()); x.hdr["content-type"] = two && i ? "text/html" : "text/plain";
+	}
+	else if (kind == "stream" || (kind == "mixchunk" && i == 0)) { // chunked responses of 6 bytes in two pieces / 7 bytes in one
+		int n = i ? 7 : 6, pc = i ? 1 : 2, sd = i ? 4 : 1; x.path = "/stream"; x.query = fmt("n=%d&p=%d&s=%d", n, pc, sd); x.req = "GET /stream?" + x.query + " HTTP/1.1\r\n" + close;
+		x.body = bodyOf(n, sd); x.hdr["transfer-encoding"] = "chunked"; x.hdr["x-streamed"] = "yes";
+	}
+	else if (kind == "json") {
+		std::string in = i ? "{\"n\":22,\"t\":\"bcd\",\"x\":[1,true]}" : "{\"n\":1,\"t\":\"a\"}";
+		x.m = "POST"; x.path = "/json"; x.reqBody = in; x.req = fmt("POST /json HTTP/1.1\r\nContent-Type: application/json\r\nContent-Length: %d\r\n", (int)in.size()) + close + in; x.seenHdr["Content-Type"] = "application/json";
+		x.jsonBody = true; x.body = "{\"got\":" + in + ",\"n\":" + (i ? "22" : "1") + ",\"s\":\"a\\\"\\\\/\\n\\u0001\"}"; x.hdr["content-type"] = "application/json*";
+	}
+	else { // chunkedreq, echo7, second half of mixchunk: POST echoed with a status, a token and the length
+		std::string b = bodyOf(7 + i, 1 + 3 * i), tok = fmt("client-%d", i); x.code = 200 + i;
+		x.m = "POST"; x.path = "/echo"; x.query = fmt("code=%d", x.code); x.reqBody = b; x.seenHdr["X-Token"] = tok;
+		x.req = "POST /echo?" + x.query + " HTTP/1.1\r\nX-Token: " + tok + "\r\n" + (kind == "chunkedreq" ? std::string("Transfer-Encoding: chunked\r\n") + close + chunkedOf(b, 4 + i) : fmt("Content-Length: %d\r\n", (int)b.size()) + close + b);
+		x.body = b; x.hdr["x-token"] = tok; x.hdr["x-len"] = fmt("%d", (int)b.size()); x.hdr["x-method"] = "POST"; x.hdr["content-length"] = x.hdr["x-len"]; x.absent.push_back("content-range"); x.absent.push_back("x-streamed");
+	}
+	return x;
+}
+static std::string cmpSeenX(const Seen& s, const Exch& x) {
+	std::string e = cmpSeen(s, x.m, x.path, x.query, x.reqBody);
+	for (std::map<std::string, std::string>::const_iterator h = x.seenHdr.begin(); h != x.seenHdr.end(); ++h) { std::map<std::string, std::string>::const_iterator g = s.headers.find(h->first); if (g == s.headers.end() || g->second != h->second) e += "handler saw request header " + h->first + " as '" + (g == s.headers.end() ? std::string("<absent>") : g->second) + "' instead of '" + h->second + "'; "; }
+	return e;
+}
+// stall > 0: the pipes hold only `stall` bytes and the second connection is not read before the first exchange is complete, so the
+// second handler thread stalls in a send after exactly `stall` bytes of its response (wherever that is: status line, a header, the
+// middle of a body block, a chunk header) while the first exchange runs from beginning to end; enumerated for every `stall`.
+// order 1: the exchanges change places (which of the two is the stalled one).
+enum { STALL_MIN = 12, STALL_MAX = 300 }; // below 12 bytes the stall is in the status line, as it is at 12..16, and the number of forced switches explodes
+static int W_STALL, W_STALL_HEAD, W_STALL_BODY;
+static Job srvPairJob(int kindIdx, int bound, int stall = 0, int order = 0) {
+	std::string kind = SRV_PAIR_KINDS[kindIdx];
+	Job j; j.name = stall ? "twostall." + kind + fmt(".%d.c%d.b%d", order, stall, bound) : "twosrv2." + kind + fmt(".b%d", bound); j.bound = bound; j.cap = stall ? stall : 65536; j.wpre = stall ? 0 : W_PAIR_SRV_PRE;
+	if (kind == "json" || kind == "chunkedreq" || kind == "echo7" || kind == "mixchunk") j.rmax = 2;
+	j.body = [kind, kindIdx, stall, order]() {
+		std::string e; Srv srv; Socket lst; lst.bind("127.0.0.1", 8000); lst.listen(2);
+		Socket c[2]; HandlerT hd[2]; Exch x[2]; std::string resp[2];
+		for (int i = 0; i < 2; i++) { x[i] = srvExch(kind, order ? 1 - i : i); if (!c[i].connect("127.0.0.1", 8000)) e += "could not connect; "; else if (!stall) c[i].write(x[i].req.data(), (int)x[i].req.size()); }
+		for (int i = 0; i < 2; i++) { hd[i].srv = &srv; hd[i].c = lst.accept(); hd[i].start(); } // connections are accepted in the order they were made
+		if (stall) { for (int i = 1; i >= 0; i--) c[i].write(x[i].req.data(), (int)x[i].req.size()); } // the handler threads are reading: a request longer than the pipe gets through
+		for (int i = 0; i < 2; i++) { resp[i] = rawReadAll(c[i]); c[i].close(); }
+		hd[0].join(); hd[1].join(); lst.close();
+		for (int i = 0; i < 2; i++) {
+			std::vector<RawResp> rs; std::string pe = parseResponses(resp[i], rs), who = fmt("connection %d (%s %s%s%s)", i, x[i].m.c_str(), x[i].path.c_str(), x[i].query.empty() ? "" : "?", x[i].query.c_str());
+			if (!pe.empty() || rs.size() != 1) { e += who + fmt(" received %d response(s): %s; ", (int)rs.size(), pe.c_str()); continue; }
+			RawResp& r = rs[0];
+			if (r.code != x[i].code) e += who + fmt(" saw status %d instead of %d; ", r.code, x[i].code);
+			if (x[i].jsonBody ? !sameJson(r.body, x[i].body) : r.body != x[i].body) e += who + fmt(" received a %d-byte body (%s) that is not the %d bytes of its own response (%s); ", (int)r.body.size(), vf::hex(r.body).substr(0, 80).c_str(), (int)x[i].body.size(), vf::hex(x[i].body).substr(0, 80).c_str());
+			if (r.h.count("content-length") && atoi(r.h["content-length"].c_str()) != (int)r.body.size()) e += who + " received a body whose length differs from Content-Length; ";
+			for (std::map<std::string, std::string>::const_iterator h = x[i].hdr.begin(); h != x[i].hdr.end(); ++h) {
+				std::string got = r.h.count(h->first) ? r.h[h->first] : std::string("<absent>"), w = h->second; bool ok = !w.empty() && w[w.size() - 1] == '*' ? got.compare(0, w.size() - 1, w, 0, w.size() - 1) == 0 : got == w;
+				if (!ok) e += who + " received the header " + h->first + ": '" + got + "' instead of '" + w + "'; ";
+			}
+			for (size_t k = 0; k < x[i].absent.size(); k++) if (r.h.count(x[i].absent[k])) e += who + " received a header of another response (" + x[i].absent[k] + ": " + r.h[x[i].absent[k]] + "); ";
+		}
+		if (srv.seen.size() != 2) e += fmt("handler invoked %d times; ", (int)srv.seen.size());
+		else { // the two handler threads record in the order they ran
+			std::string a = cmpSeenX(srv.seen[0], x[0]) + cmpSeenX(srv.seen[1], x[1]), b = cmpSeenX(srv.seen[1], x[0]) + cmpSeenX(srv.seen[0], x[1]);
+			if (!a.empty() && !b.empty()) e += a.size() <= b.size() ? a : b;
+		}
+		if (!stall) wit(W_PAIR_SRV[kindIdx]);
+		else { // where the second handler was held up
+			size_t he = resp[1].find("\r\n\r\n");
+			if ((int)resp[1].size() > STALL_MAX) vf::cap_hit("a response is longer than the largest pipe enumerated for the stalled sender");
+			if ((int)resp[1].size() > stall) { wit(W_STALL); wit(he != std::string::npos && (size_t)stall >= he + 4 ? W_STALL_BODY : W_STALL_HEAD); }
+		}
+		return e;
+	};
+	return j;
+}
+// client side: what client i does, what the responder sends to the client that identified itself as k, and what must be on the wire
+static const char* CLI_PAIR_KINDS[] = { "post", "putfile", "upload", "chunked", "mixed", "download", "json" };
+enum { N_CLI_PAIR_KINDS = 7 };
+static int W_PAIR_CLI[N_CLI_PAIR_KINDS], W_PAIR_CLI_PRE;
+static std::string cliRespBody(const std::string& kind, int k) { return kind == "json" ? fmt("{\"k\":%d,\"v\":\"%s\"}", k, k ? "w\\n1" : "v0") : bodyOf(6 + k, 3 + 2 * k); }
+static std::string cliResponse(const std::string& kind, int k) {
+	std::string b = cliRespBody(kind, k), head = fmt("HTTP/1.1 %d OK\r\nX-Token: client-%d\r\n", 200 + (k & 1), k);
+	if (kind == "chunked" || (kind == "mixed" && k == 0)) return head + "Transfer-Encoding: chunked\r\n\r\n" + chunkedOf(b, 3 + k);
+	return head + (kind == "json" ? "Content-Type: application/json\r\n" : "") + fmt("Content-Length: %d\r\n\r\n", (int)b.size()) + b;
+}
+static std::string cliReqBody(const std::string& kind, int k) { return kind == "post" ? bodyOf(7 + k, 1 + 4 * k) : kind == "putfile" || kind == "upload" ? (k ? FILEG : FILE6) : kind == "json" ? (k ? "{\"n\":1,\"t\":\"kkk\",\"l\":[1,2.5,\"x\"]}" : "{\"n\":0,\"t\":\"jj\"}") : std::string(); }
+static std::string cliAction(const std::string& kind, int i) {
+	std::string e, who = fmt("client %d: ", i); String url = fmt(BASEURL "/r?i=%d", i).c_str(); Dic<> h; h["X-Token"] = fmt("client-%d", i).c_str();
+	std::string src = g_root + (i ? "/g.html" : "/f.txt"), want = cliRespBody(kind, i);
+	if (kind == "upload") { if (!Http::upload(url, src.c_str(), h)) e += who + "upload() of an existing file answered with 2xx returned false; "; return e; }
+	if (kind == "download") {
+		std::string dst = g_root + fmt("/dl2.%d.%d", (int)getpid(), i); unlink(dst.c_str());
+		bool ok = Http::download(url, dst.c_str(), Http::Progress(), h); std::string got = slurp(dst); unlink(dst.c_str());
+		if (!ok) e += who + "download() returned false; ";
+		if (got != want) e += who + fmt("download() stored %d bytes (%s) that are not the %d bytes of its own response; ", (int)got.size(), vf::hex(got).substr(0, 60).c_str(), (int)want.size());
+		return e;
+	}
+	HttpResponse res; std::string rb = cliReqBody(kind, i);
+	if (kind == "post") res = Http::post(url, ByteArray((const byte*)rb.data(), (int)rb.size()), h);
+	else if (kind == "putfile") res = Http::put(url, File(src.c_str()), h);
+	else if (kind == "json") { Var v; v["n"] = i; v["t"] = i ? "kkk" : "jj"; if (i) v["l"] = Var::array({ 1, 2.5, "x" }); res = Http::post(url, v, h); }
+	else res = Http::get(url, h);
+	std::string got = bodyStr(res);
+	if (res.code() != 200 + i) e += who + fmt("saw status %d instead of %d; ", res.code(), 200 + i);
+	if (res.header("X-Token") != fmt("client-%d", i).c_str()) e += who + "received the token '" + vfx::S(res.header("X-Token")) + "'; ";
+	if (got != want) e += who + fmt("received %d bytes (%s) that are not the %d bytes of its own response; ", (int)got.size(), vf::hex(got).substr(0, 60).c_str(), (int)want.size());
+	if (kind == "json") { Var r = res.json(); if (!r.ok() || (int)r["k"] != i || r["v"].toString() != (i ? "w\n1" : "v0")) e += who + "json() of the response is not the value that was sent to it; "; }
+	return e;
+}
+// head and (Content-Length) body of one request, as the raw responder reads them
+static std::string readRequest(Socket& c) {
+	std::string got = readHead(c); size_t he = got.find("\r\n\r\n"); if (he == std::string::npos) return got;
+	size_t cl = lower(got).find("\r\ncontent-length:"); if (cl == std::string::npos || cl > he) return got;
+	size_t need = he + 4 + atoi(got.c_str() + cl + 17); char buf[256];
+	while (got.size() < need) { if (!c.waitInput(5.0)) break; int a = c.available(); if (a <= 0) break; size_t m = need - got.size(); int n = c.read(buf, (int)std::min<size_t>(std::min<size_t>(a, m), 256)); if (n <= 0) break; got.append(buf, n); }
+	return got;
+}
+static std::string cliWire(const std::string& kind, const std::string& req, int& k) {
+	std::string e, m = kind == "putfile" ? "PUT" : kind == "post" || kind == "upload" || kind == "json" ? "POST" : "GET";
+	if (req.size() < m.size() + 20 || req.compare(0, m.size() + 6, m + " /r?i=") != 0 || (req[m.size() + 6] != '0' && req[m.size() + 6] != '1') || req.compare(m.size() + 7, 11, " HTTP/1.1\r\n") != 0) { k = -1; return "request line on the wire is '" + vf::hex(req.substr(0, 24)) + "'; "; }
+	k = req[m.size() + 6] - '0'; std::string who = fmt("request of client %d on the wire: ", k);
+	size_t he = req.find("\r\n\r\n"); if (he == std::string::npos) return who + "head not terminated; ";
+	std::map<std::string, std::string> h; size_t p = req.find("\r\n") + 2;
+	while (p < he + 2) { size_t eol = req.find("\r\n", p); std::string l = req.substr(p, eol - p); p = eol + 2; size_t c = l.find(':'); if (c == std::string::npos) { e += who + "header line '" + l.substr(0, 40) + "'; "; continue; } std::string v = l.substr(c + 1); while (!v.empty() && v[0] == ' ') v.erase(0, 1); h[lower(l.substr(0, c))] = v; }
+	std::string body = req.substr(he + 4), want = cliReqBody(kind, k);
+	if (h["x-token"] != fmt("client-%d", k)) e += who + "carries the token '" + h["x-token"] + "'; ";
+	if (m != "GET" && h["content-length"] != fmt("%d", (int)body.size())) e += who + fmt("Content-Length '%s' with %d body bytes; ", h["content-length"].c_str(), (int)body.size());
+	if (kind == "upload") {
+		std::string ct = h["content-type"], pre = "multipart/form-data; boundary=";
+		if (ct.compare(0, pre.size(), pre) != 0 || ct.size() == pre.size()) return e + who + "Content-Type of an upload is '" + ct + "'; ";
+		std::string B = ct.substr(pre.size()), open = "--" + B + "\r\n", close = "\r\n--" + B + "--\r\n"; size_t pe = body.find("\r\n\r\n");
+		if (!(body.compare(0, open.size(), open) == 0 && pe != std::string::npos && body.size() >= pe + 4 + close.size() && body.compare(body.size() - close.size(), close.size(), close) == 0)) return e + who + fmt("multipart body (%d bytes) does not consist of the opening boundary, part headers, content and closing boundary announced in Content-Type: %s; ", (int)body.size(), vf::hex(body).substr(0, 400).c_str());
+		std::string part = body.substr(open.size(), pe - open.size()), content = body.substr(pe + 4, body.size() - close.size() - pe - 4);
+		if (content != want) e += who + "file content inside the multipart body is '" + vf::hex(content).substr(0, 60) + "'; ";
+		if (part.find(k ? "filename=\"g.html\"" : "filename=\"f.txt\"") == std::string::npos) e += who + "part headers do not name its file; ";
+	}
+	else if (kind == "json") { if (!sameJson(body, want)) e += who + "body '" + vf::hex(body).substr(0, 120) + "' is not the JSON value that was posted; "; if (h["content-type"].compare(0, 16, "application/json") != 0) e += who + "Content-Type '" + h["content-type"] + "'; "; }
+	else if (body != want) e += who + fmt("%d body bytes (%s) instead of the %d bytes that were given; ", (int)body.size(), vf::hex(body).substr(0, 60).c_str(), (int)want.size());
+	return e;
+}
+static Job cliPairJob(int kindIdx, int bound) {
+	std::string kind = CLI_PAIR_KINDS[kindIdx];
+	Job j; j.name = "twocli2." + kind + fmt(".b%d", bound); j.bound = bound; j.cap = 65536; j.wpre = W_PAIR_CLI_PRE; j.rmax = 2; // every kind receives a body of 6-7 bytes (receive block: 5)
+	j.body = [kind, kindIdx]() {
+		std::string e; Socket lst; lst.bind("127.0.0.1", 8000); lst.listen(2);
+		asl::random.seed(20240607); // multipart boundaries come from the global generator: the same bytes for the same schedule
+		ClientT c[2]; std::string err[2], reqs[2]; int ks[2];
+		for (int i = 0; i < 2; i++) { c[i].f = [i, kind, &err]() { err[i] = cliAction(kind, i); }; c[i].start(); }
+		Socket s[2]; for (int i = 0; i < 2; i++) s[i] = lst.accept();
+		for (int i = 0; i < 2; i++) reqs[i] = readRequest(s[i]);
+		for (int i = 0; i < 2; i++) { e += cliWire(kind, reqs[i], ks[i]); std::string r = cliResponse(kind, ks[i] < 0 ? 7 : ks[i]); s[i].write(r.data(), (int)r.size()); }
+		for (int i = 0; i < 2; i++) s[i].close();
+		c[0].join(); c[1].join(); lst.close();
+		e += err[0] + err[1];
+		if (ks[0] >= 0 && ks[0] == ks[1]) e += fmt("both connections carry a request of client %d; ", ks[0]);
+		wit(W_PAIR_CLI[kindIdx]);
+		return e;
+	};
+	return j;
+}
 // S8 (real block sizes): large bodies, default schedule family only
 static Job bigJob(int len, int bound) {
 	Job j; j.name = fmt("big.%d.b%d", len, bound); j.bound = bound; j.cap = 65536;
@@ -741,10 +942,13 @@ int main(int argc, char** argv) {
 		W_QUERYVALS = vf::counter("w.decoded_query_value_sets_compared"); W_PCTPATH = vf::counter("w.percent_encoded_paths"); W_FRAGMENT = vf::counter("w.urls_with_fragment"); W_RANGE_OPEN = vf::counter("w.open_ended_ranges"); W_RANGE_SUFFIX = vf::counter("w.suffix_ranges"); W_RANGE_IGNORED = vf::counter("w.unsupported_range_headers");
 		W_LOWER_HDR = vf::counter("w.lower_case_request_header_seen"); W_REDIRECT_HOPS = vf::counter("w.redirect_hops_followed"); W_REDIRECT_LIMIT = vf::counter("w.redirect_limit_reached"); W_REDIRECT_OFF = vf::counter("w.redirects_not_followed"); W_FILE_REQ = vf::counter("w.file_request_bodies"); W_MULTIPART = vf::counter("w.multipart_uploads"); W_DOWNLOAD = vf::counter("w.downloads_to_file");
 		W_FORM = vf::counter("w.form_encoded_posts"); W_METHODS = vf::counter("w.delete_patch_head_exchanges"); W_OPTIONS_AUTO = vf::counter("w.options_answered_by_server"); W_EXPECT_SRV = vf::counter("w.expect_100_raw_requests"); W_INTERIM_CLI = vf::counter("w.interim_responses_to_client"); W_HTTP10 = vf::counter("w.http10_requests"); W_MISSING = vf::counter("w.missing_file_responses"); W_MIXED = vf::counter("w.concurrent_echo_and_range"); W_HDR3 = vf::counter("w.three_header_requests"); W_LIGHT = vf::counter("w.two_clients_two_handler_threads"); W_TWOLIB = vf::counter("w.two_library_clients_raw_responders"); W_FRAGMENTED = vf::counter("w.raw_streams_delivered_in_two_parts");
+		for (int k = 0; k < N_SRV_PAIR_KINDS; k++) W_PAIR_SRV[k] = vf::counter((std::string("w.pair_server_side.") + SRV_PAIR_KINDS[k]).c_str());
+		for (int k = 0; k < N_CLI_PAIR_KINDS; k++) W_PAIR_CLI[k] = vf::counter((std::string("w.pair_client_side.") + CLI_PAIR_KINDS[k]).c_str());
+		W_STALL = vf::counter("w.stalled_sender_pairs"); W_STALL_HEAD = vf::counter("w.sender_stalled_inside_head"); W_STALL_BODY = vf::counter("w.sender_stalled_inside_body"); W_PAIR_SRV_PRE = vf::counter("w.pair_server_side_executions_with_preemption"); W_PAIR_CLI_PRE = vf::counter("w.pair_client_side_executions_with_preemption");
 	}
 	vsched::set_fatal_handler(onFatal);
 	vsched::set_state_probe(vnet::state_hash);
-	g_root = vf::scratch_dir() + "/root"; if (system(("mkdir -p '" + g_root + "' && printf 012345 > '" + g_root + "/f.txt'").c_str())) {}
+	g_root = vf::scratch_dir() + "/root"; if (system(("mkdir -p '" + g_root + "' && printf 012345 > '" + g_root + "/f.txt' && printf abcdef > '" + g_root + "/g.html'").c_str())) {}
 	bool T = vf::opt.thorough();
 	std::vector<Job> jobs;
 	if (big) {
@@ -783,6 +987,11 @@ int main(int argc, char** argv) {
 		// three threads: <= 1 preemption costs 400-2000 schedules per scenario; <= 2 preemptions 30000-100000 (thorough, server side)
 		for (int k = 0; k < 3; k++) jobs.push_back(twoSrvJob(k, T ? 2 : 1));
 		jobs.push_back(twoCliJob(1));
+		// the same two shapes for every kind of body: two exchanges of the same kind with different content in flight
+		for (int k = 0; k < N_SRV_PAIR_KINDS; k++) jobs.push_back(srvPairJob(k, T && k < 4 ? 2 : 1)); // thorough: <= 2 preemptions for the file and chunked response bodies (47000-76000 schedules each)
+		for (int k = 0; k < N_CLI_PAIR_KINDS; k++) jobs.push_back(cliPairJob(k, 1));
+		// the second sender stalled after every number of bytes of its response while the first exchange runs (forced switches only)
+		for (int k = 0; k < N_SRV_PAIR_KINDS; k++) for (int o = 0; o < 2; o++) { if (o && !T && strcmp(SRV_PAIR_KINDS[k], "mixchunk")) continue; for (int c = STALL_MIN; c <= STALL_MAX; c++) jobs.push_back(srvPairJob(k, 0, c, o)); }
 	}
 	std::stable_partition(jobs.begin(), jobs.end(), [](const Job& j) { return j.name.compare(0, 3, "two") == 0 || j.bound >= 2; }); // the long explorations start first
 	if (getenv("C10_ONLY")) { std::vector<Job> q; for (size_t i = 0; i < jobs.size(); i++) if (jobs[i].name.find(getenv("C10_ONLY")) == 0) q.push_back(jobs[i]); jobs.swap(q); }
@@ -793,7 +1002,7 @@ int main(int argc, char** argv) {
 	}
 	vf::parallel(jobs.size(), [&](uint64_t i) { if (vf::deadline_passed()) { vf::cap_hit("deadline"); return; } runJob(jobs[i], 0); });
 	vf::setinfo("scenarios", fmt("%d", (int)jobs.size()));
-	if (!big) { vf::sample("echo.PUT.13.201: Http::request PUT /ec%68o?code=201&k=a%20b+c%26d&%6b2=%3D&e= with a 13-byte body (CR LF NUL 0xff) over a 4-byte pipe, send block 8 / receive block 5, all schedules with <= 1 preemption"); vf::sample("range.2.2: GET /f.txt with Range: bytes=2-2; rangeh.bytes=-3; rawclient chunked PUT cut at every 3rd byte; rawserver chunked 203 response cut at every 2nd byte; redir.307.3: POST followed through three 307 redirects"); }
+	if (!big) { vf::sample("echo.PUT.13.201: Http::request PUT /ec%68o?code=201&k=a%20b+c%26d&%6b2=%3D&e= with a 13-byte body (CR LF NUL 0xff) over a 4-byte pipe, send block 8 / receive block 5, all schedules with <= 1 preemption"); vf::sample("range.2.2: GET /f.txt with Range: bytes=2-2; rangeh.bytes=-3; rawclient chunked PUT cut at every 3rd byte; rawserver chunked 203 response cut at every 2nd byte; redir.307.3: POST followed through three 307 redirects"); vf::sample("twosrv2.range.b1: GET /f.txt with Range bytes=0-2 and bytes=3-5 handled by two threads at once, every schedule with <= 1 preemption; twocli2.putfile.b1: two Http::put of different files at once; twostall.file.0.c150.b0: the handler sending g.html stalls after 150 bytes of its response while f.txt is served to the other connection"); }
 	else vf::sample("big.128001: PUT of 128001 bytes with the real 128000/16000 block sizes over a 64 KiB pipe");
 	return vf::finish();
 }
